@@ -49,6 +49,7 @@ void h_init_determined(void) {
   g_file_size = 4 + 4 * present + (nondet_size() & 3);
   size_t cex_maxcycles = nondet_size();
   uint32_t cex_k = nondet_u32(); __CPROVER_assume(cex_k < MEMORY_SIZE_WORDS);
+  g_zero_k = cex_k;
   int j = nondet_int(); __CPROVER_assume(j >= 0 && j < 8);
   /* run A */
   havoc_host(cex_maxcycles);
@@ -104,7 +105,12 @@ def build_unit(chk):
                         "static void traceSyscall(void)\n__CPROVER_requires(1)\n__CPROVER_assigns(g_fmt_calls, g_first_nargs, g_cur, g_nargs_cur, __CPROVER_object_whole(g_first_args))\n{", 1)
     if text.count("__CPROVER_object_whole(g_first_args)") != 2:
         raise hv.ExtractionError("could not splice frame contracts onto trace/traceSyscall")
-    mz = "#ifdef HEX_CBMC\n#define MEM_ZERO() __CPROVER_array_set(memory, 0)\n#else\n#define MEM_ZERO() memset(memory, 0, 4 * MEMORY_SIZE_WORDS)\n#endif\n"
+    mz = ("#ifdef HEX_CBMC\n#define MEM_ZERO() __CPROVER_array_set(memory, 0)\n"
+          "/* a clear of the first n bytes: the whole array when n covers it; otherwise (a clear that is too short) it is modelled\n"
+          "   exactly at the ghost word the harness observes, which is all the obligations look at */\n"
+          "static uint32_t g_zero_k;\n"
+          "#define MEM_ZERO_BYTES(n) do { if ((size_t)(n) >= 4 * (size_t)MEMORY_SIZE_WORDS) __CPROVER_array_set(memory, 0); else if (4 * (size_t)g_zero_k + 4 <= (size_t)(n)) memory[g_zero_k] = 0; } while (0)\n"
+          "#else\n#define MEM_ZERO() memset(memory, 0, 4 * MEMORY_SIZE_WORDS)\n#define MEM_ZERO_BYTES(n) memset(memory, 0, (n))\n#endif\n")
     text = text.replace("static void Processor_ctor(", mz + "static void Processor_ctor(", 1)
     return chk.write("c12_unit.c", "#include <string.h>\n" + text + simunit.HARNESS + C12_HARNESS)
 
